@@ -132,7 +132,7 @@ pub fn run(ctx: &Ctx, subjects: &[Box<dyn DynSubject>], seqs: &[SeqEntry], only_
             if rep.samples.len() < 10 && kind == "near-miss" {
                 rep.sample(json!({"written_as": t.name(), "read_as": uu.name(), "value": v.show(), "expected": if a.dt != b.dt { "WrongTypeHash" } else if a.dl != b.dl { "WrongAlignHash" } else { "accepted, same value" }}));
             }
-            let pl = Placed::new(&bytes, 4096, 0);
+            let pl = Placed::new(&bytes, 16384, 0);
             let full = guard(|| uu.full(&mut std::io::Cursor::new(&bytes[..])));
             let eps = guard(|| uu.eps(pl.bytes()).map(|o| o.val));
             // the same bytes with the recorded type *name* replaced by the reader's own (what a recompiled
@@ -142,7 +142,7 @@ pub fn run(ctx: &Ctx, subjects: &[Box<dyn DynSubject>], seqs: &[SeqEntry], only_
             let mut modes = vec![("full", full), ("eps", eps)];
             if differs && !(a.th == b.th && a.ah == b.ah) {
                 let renamed = rename_stream(&bytes, uu.std_type_name());
-                let plr = Placed::new(&renamed, 4096, 0);
+                let plr = Placed::new(&renamed, 16384, 0);
                 modes.push(("full, type name in the stream set to the reader's", guard(|| uu.full(&mut std::io::Cursor::new(&renamed[..])))));
                 modes.push(("eps, type name in the stream set to the reader's", guard(|| uu.eps(plr.bytes()).map(|o| o.val))));
                 rep.evaluations += 2;
